@@ -15,6 +15,8 @@ CLAIMED = {
          "Bounded history length and alphabet."),
  "C06": ("index damage: truncation at a symbolic length, overwrites with symbolic byte values, inserted garbage lines; oracle from untouched records; sync and async readers",
          "One damage event; quick tier uses representative positions per structural class, thorough every byte position; ideal hash."),
+ "C07": ("2-3 concurrent operations (write, write_hash, read, read_hash, metadata, remove, remove_hash, exists, list) by separate processes on cold and warm caches: the schedule (which process performs the next filesystem-changing system call or open) is part of the explored path, sleep-set reduction over recorded footprints; oracle = the same operations run serially in every order by the same code; counterexample schedules are enforced natively system call by system call (LD_PRELOAD gate) and compared with native serial runs",
+         "Granularity: control changes hands immediately before a filesystem-changing call or an open for reading, once the running process has completed such an event; blobs <= 64 bytes; one operation per process; quick: pairs (+1 triple), thorough adds cold writer pairs and triples. One known finding (F13)."),
  "C08": ("commit enforcement: symbolic declared size over the full usize range, seven classes of declared integrity, prior key states incl. same data, 3 flavours",
          "Bounded: <= 3 chunks (quick 2); well-formed integrity arguments."),
  "C09": ("remove / remove_hash / remove_fully / clear aimed at shared, distinct and never-written keys, with filesystem frame condition and explicit symbolic timestamps",
